@@ -74,7 +74,7 @@ class MembershipMonitor(Monitor):
     def apply_extra(self, model, w, ev):
         k = ev[0]
         if k == 'M':
-            bud = model.spend(w, 'M')
+            bud = model.spend(w, 'M') if ev[-1] != 'free' else w.budget
             if bud is None:
                 return None
             return model.node_step(w, ev[1], ('member', ev[2], ev[3], ('m', w.nsub), ev[4]), budget=bud, nsub=w.nsub + 1, label=ev)
